@@ -1162,7 +1162,7 @@ def run(ctx):
 
     # 3. chunk structure of parse_ntriples at the boundaries (C13_chunking)
     docs = []
-    for n in [0, 1, 2] + BOUNDARY + ([2999, 3000, 3001, 3500] if T else [3500]):
+    for n in ([0, 1, 2] + BOUNDARY + [2999, 3000, 3001, 3500] if T else [0, 1, 999, 1000, 1001, 2000, 2001, 3500]):
         for rep in range(2 if T else 1):
             docs.append(gen_big_nt(rng, n, fill=0.05) if n > 10 else ["doc", "nt", gen_nt_doc(rng, n, V=12, p_unclean=0.0)])
     eval_chunks(ctx, binpath, docs, "nt_chunks")
@@ -1187,6 +1187,8 @@ def run(ctx):
     for n in BOUNDARY + [3500] + ([1500, 2500, 3499] if T else []):
         for rep in range(3 if T else 1):
             for fmt in ("nt", "nq"):
+                if fmt == "nq" and not T and n not in (1000, 1001, 2001):
+                    continue
                 doc = gen_big_nt(rng, n, quads=(fmt == "nq")) + [True]
                 kind = ["empty", "sharing", "disjoint"][(len(big)) % 3]
                 ops = gen_prior(rng, kind, [["doc", fmt, op_items(doc)[:60]]])
